@@ -4,3 +4,5 @@ import XProofs.Properties.C17
 #print axioms Properties.C17.C17_frozen_history
 #print axioms Properties.C17.C17_values_propagate
 #print axioms Properties.C17.C17_unfreeze
+#print axioms Properties.C17.C17_as_if_never_frozen
+#print axioms Properties.C17.C17_frozen_call
